@@ -3,15 +3,18 @@
 Require Import Floats.SpecFloat.
 Require Import List ZArith Bool.
 From Flocq Require Import Core BinarySingleNaN.
-From Dasp Require Import Base.Res Base.Float Signal.Converter Signal.ConvNumF.
+From Dasp Require Import Base.Res Base.Float Signal.Converter Signal.ConvNumF Sample.ConvSpec Sample.SampleFmt.
 Import ListNotations.
 Open Scope Z_scope.
 
-Inductive zop := ZNext | ZSetPlay (x : Z) | ZSetHz (a b : Z) | ZSetSample (x : Z).
+Inductive zop := ZNext | ZSetPlay (x : Z) | ZSetHz (a b : Z) | ZSetSample (x : Z) | ZUntil (cap : Z).
 Inductive zctor := CHz (a b : Z) | CScale (m : Z) | CSample (m : Z) | CMul (ctl : list Z).
-(* format code (0 f64, 1 f32, 2 i16, 3 u8), interpolator (0 floor, 1 linear), channels,
-   source frames (floats as bit patterns), constructor, operations *)
-Inductive zcase := ZCase (fmt itp nch : Z) (frames : list (list Z)) (c : zctor) (ops : list zop).
+(* format code (0 f64, 1 f32, 2 i16, 3 u8: hand-written conversions of ConvNumF.v;
+   100 + SampleFmt.sfmt_code: the generated conversions, all 14 formats), interpolator (0 floor,
+   1 linear), channels, source frames (floats as bit patterns), constructor, operations, and the
+   number of frames pulled from the source itself after the converter was dropped (a converter over a
+   borrowed source `&mut S` / `by_ref()` has the same state as one that owns it) *)
+Inductive zcase := ZCase (fmt itp nch : Z) (frames : list (list Z)) (c : zctor) (ops : list zop) (tail : Z).
 
 Definition fuel_run : nat := 5000.
 Definition b2z (b : bool) : Z := if b then 1 else 0.
@@ -25,30 +28,49 @@ Variable dec : Z -> smp Fm.
 
 Definition encf (f : frame Fm) : list Z := map enc f.
 
-Fixpoint run_ops (c : conv Fm) (ops : list zop) : list (list Z) :=
+(* observations of the operations, then [tail] pulls from the source the converter leaves behind:
+   `5 exhausted_before pulls iter frame..` each *)
+Fixpoint run_tail (k : nat) (s : source Fm) : list (list Z) :=
+  match k with
+  | O => []
+  | S k' => let (f, s') := src_next s in
+            (5 :: b2z (src_exhausted s) :: zn (pulls s') :: zn (iter_calls s') :: encf f) :: run_tail k' s'
+  end.
+
+Fixpoint run_ops (c : conv Fm) (ops : list zop) (tail : nat) : list (list Z) :=
   match ops with
-  | [] => []
+  | [] => run_tail tail (src c)
   | ZNext :: t =>
     match next fuel_run c with
     | Diverges => [[9]]
     | Done (out, c') =>
       (1 :: b2z (is_exhausted c) :: zn (pulls (src c')) :: zn (iter_calls (src c')) :: F64.bits (value c') :: encf out)
-        :: run_ops c' t
+        :: run_ops c' t tail
     end
-  | ZSetPlay x :: t => [3] :: run_ops (set_playback_hz_scale c (fb x)) t
-  | ZSetHz a b :: t => [3] :: run_ops (set_hz_to_hz c (fb a) (fb b)) t
-  | ZSetSample x :: t => [3] :: run_ops (set_sample_hz_scale c (fb x)) t
+  | ZSetPlay x :: t => [3] :: run_ops (set_playback_hz_scale c (fb x)) t tail
+  | ZSetHz a b :: t => [3] :: run_ops (set_hz_to_hz c (fb a) (fb b)) t tail
+  | ZSetSample x :: t => [3] :: run_ops (set_sample_hz_scale c (fb x)) t tail
+  | ZUntil cap :: t =>
+    match until_exhausted fuel_run (Z.to_nat cap) c with
+    | Diverges => [[9]]
+    | Done (n, c') => [4; zn n; zn (pulls (src c'))] :: run_ops c' t tail
+    end
   end.
 
-Fixpoint run_mul_ops (m : mulhz Fm) (ops : list zop) : list (list Z) :=
+Fixpoint run_mul_ops (m : mulhz Fm) (ops : list zop) (tail : nat) : list (list Z) :=
   match ops with
-  | [] => []
+  | [] => run_tail tail (src (mconv m))
+  | ZUntil cap :: t =>
+    match mul_until_exhausted fuel_run (Z.to_nat cap) m with
+    | Diverges => [[9]]
+    | Done (n, m') => [4; zn n; zn (pulls (src (mconv m')))] :: run_mul_ops m' t tail
+    end
   | _ :: t =>
     match mul_next fuel_run m with
     | Diverges => [[9]]
     | Done (out, m') =>
       (2 :: b2z (mul_exhausted m) :: zn (pulls (src (mconv m'))) :: zn (iter_calls (src (mconv m'))) :: encf out)
-        :: run_mul_ops m' t
+        :: run_mul_ops m' t tail
     end
   end.
 
@@ -58,13 +80,13 @@ Definition prime (itp : Z) (s : source Fm) : interp Fm * source Fm :=
   if itp =? 0 then let (a, s1) := src_next s in (IFloor a, s1)
   else let (a, s1) := src_next s in let (b, s2) := src_next s1 in (ILinear a b, s2).
 
-Definition run_case_fmt (itp nch : Z) (frames : list (list Z)) (c : zctor) (ops : list zop) : list (list Z) :=
+Definition run_case_fmt (itp nch : Z) (frames : list (list Z)) (c : zctor) (ops : list zop) (tl : Z) : list (list Z) :=
   let s0 := from_iter (Z.to_nat nch) (map (map dec) frames) in
   let (i, s) := prime itp s0 in
   let hd := [0; zn (pulls s); zn (iter_calls s)] in
   let fin (r : res (conv Fm)) :=
     match r with
-    | Ok cv => hd :: run_ops cv ops
+    | Ok cv => hd :: run_ops cv ops (Z.to_nat tl)
     | Panic _ => [[8; 9]]   (* the assertion carries a custom message: harness class 9 *)
     | UB => [[-2]]
     end in
@@ -74,7 +96,7 @@ Definition run_case_fmt (itp nch : Z) (frames : list (list Z)) (c : zctor) (ops 
   | CSample m => fin (scale_sample_hz s i (fb m))
   | CMul ctl =>
     match mul_hz s i (map fb ctl) with
-    | Ok m => hd :: run_mul_ops m ops
+    | Ok m => hd :: run_mul_ops m ops (Z.to_nat tl)
     | Panic _ => [[8; 9]]   (* the assertion carries a custom message: harness class 9 *)
     | UB => [[-2]]
     end
@@ -83,12 +105,17 @@ End Fmt.
 
 Definition run_case (c : zcase) : list (list Z) :=
   match c with
-  | ZCase fmt itp nch frames ct ops =>
+  | ZCase fmt itp nch frames ct ops tl =>
     match fmt with
-    | 0 => run_case_fmt fmt_f64 F64.bits F64.of_bits itp nch frames ct ops
-    | 1 => run_case_fmt fmt_f32 F32.bits F32.of_bits itp nch frames ct ops
-    | 2 => run_case_fmt fmt_i16 (fun z => z) (fun z => z) itp nch frames ct ops
-    | _ => run_case_fmt fmt_u8 (fun z => z) (fun z => z) itp nch frames ct ops
+    | 0 => run_case_fmt fmt_f64 F64.bits F64.of_bits itp nch frames ct ops tl
+    | 1 => run_case_fmt fmt_f32 F32.bits F32.of_bits itp nch frames ct ops tl
+    | 2 => run_case_fmt fmt_i16 (fun z => z) (fun z => z) itp nch frames ct ops tl
+    | 3 => run_case_fmt fmt_u8 (fun z => z) (fun z => z) itp nch frames ct ops tl
+    | _ =>
+      match sfmt_of_code (fmt - 100) with
+      | Some f => run_case_fmt (fmt_gen f) (enc f) (dec f) itp nch frames ct ops tl
+      | None => [[-3]]
+      end
     end
   end.
 
